@@ -417,3 +417,7 @@ import obligations.C19  # noqa: E402,F401
 from vf.registry import alias  # noqa: E402
 
 alias("C13.refused_commit_is_reported", "C19.refused_commit_is_reported", "atomicity: when the engine refuses a COMMIT (and rolls back), the session is told - never 'Statement executed successfully.'")
+
+import obligations.C14  # noqa: E402,F401
+
+alias("C13.a_new_session_is_outside_a_transaction", "C14.connect_ladder", "whatever connect() had to create (database, schema, metadata objects), the session it returns has no open transaction: its first statement is committed at once and BEGIN / ROLLBACK mean what they say")
